@@ -16,7 +16,48 @@ using namespace vf;
 namespace ab = amgcl::backend;
 static const long double U = 1.1102230246251565404e-16L; // 2^-53
 
+// Row-iterator protocol probe: three rows (not necessarily distinct) whose iterators are opened at once and advanced in an
+// interleaved, tape-chosen order.  An adapter whose iterators share state (a common row buffer, a pointer into another
+// iterator) shows a row that differs from the one a single pass sees.
+struct Schedule {
+    int k = 0;                           // number of simultaneously open iterators (0: no probe)
+    ptrdiff_t rows[3] = {0, 0, 0};
+    std::vector<unsigned char> order;    // which iterator to advance next (cyclic)
+};
+inline Schedule gen_schedule(Tape &t, ptrdiff_t nrows) {
+    Schedule sc;
+    if (nrows < 1) return sc;
+    sc.k = 3;
+    // word 0 -> rows 0,1,2 (distinct when they exist); otherwise any rows, repeats allowed
+    bool consecutive = !t.b();
+    for (int q = 0; q < 3; ++q) sc.rows[q] = consecutive ? std::min<ptrdiff_t>(q, nrows - 1) : static_cast<ptrdiff_t>(t.pick(static_cast<size_t>(nrows)));
+    if (consecutive && nrows > 3) { ptrdiff_t off = static_cast<ptrdiff_t>(t.pick(static_cast<size_t>(nrows - 2))); for (int q = 0; q < 3; ++q) sc.rows[q] += off; }
+    int len = static_cast<int>(t.u(1, 24));
+    sc.order.resize(len);
+    for (auto &o : sc.order) o = static_cast<unsigned char>(t.u(0, 2));
+    return sc;
+}
+
+// Open sc.k iterators at once, advance them interleaved, return the (col, value) sequences each of them produced.
+// Iterators are held in named locals: some adapters' iterators must not be copied or moved (guaranteed elision only).
+template <class M, class Entry, class Get>
+void walk_interleaved(const M &m, const Schedule &sc, std::vector<Entry> out[3], const Get &get) {
+    auto i0 = ab::row_begin(m, sc.rows[0]);
+    auto i1 = ab::row_begin(m, sc.rows[1]);
+    auto i2 = ab::row_begin(m, sc.rows[2]);
+    size_t step = 0;
+    while (static_cast<bool>(i0) || static_cast<bool>(i1) || static_cast<bool>(i2)) {
+        int p = sc.order[step++ % sc.order.size()];
+        for (int tries = 0; tries < 3; ++tries, p = (p + 1) % 3) {
+            if (p == 0 && static_cast<bool>(i0)) { out[0].push_back(get(i0)); ++i0; break; }
+            if (p == 1 && static_cast<bool>(i1)) { out[1].push_back(get(i1)); ++i1; break; }
+            if (p == 2 && static_cast<bool>(i2)) { out[2].push_back(get(i2)); ++i2; break; }
+        }
+    }
+}
+
 struct Source {
+    Schedule sched;
     Csr<double> A;                       // the matrix as the user holds it (storage order matters)
     std::vector<double> x, y0;           // SpMV probe
     double alpha = 1, beta = 0;
@@ -56,6 +97,27 @@ void require_same_rows(const M &m, const Source &src, const std::string &what, b
         for (size_t k = 0; k < got.size(); ++k)
             VF_REQUIRE(got[k].first == exp[k].first && bits_equal(got[k].second, exp[k].second), what << ": row " << i << " entry " << k << " is (" << got[k].first << "," << got[k].second
                        << "), source has (" << exp[k].first << "," << exp[k].second << ")");
+    }
+    // several iterators alive at once, advanced interleaved
+    if (src.sched.k && A.n > 0) {
+        typedef std::pair<ptrdiff_t, double> E;
+        std::vector<E> got[3];
+        walk_interleaved(m, src.sched, got, [](const typename std::decay<decltype(ab::row_begin(m, 0))>::type &a) { return E(static_cast<ptrdiff_t>(a.col()), static_cast<double>(a.value())); });
+        for (int q = 0; q < 3; ++q) {
+            ptrdiff_t i = src.sched.rows[q];
+            std::vector<E> exp;
+            for (ptrdiff_t j = A.ptr[i]; j < A.ptr[i + 1]; ++j) exp.push_back(E(A.col[j], A.val[j]));
+            if (!same_order) {
+                auto lt = [](const E &a, const E &b) { return a.first < b.first || (a.first == b.first && a.second < b.second); };
+                std::sort(got[q].begin(), got[q].end(), lt); std::sort(exp.begin(), exp.end(), lt);
+            }
+            VF_REQUIRE(got[q].size() == exp.size(), what << ": with 3 row iterators open (rows " << src.sched.rows[0] << "," << src.sched.rows[1] << "," << src.sched.rows[2] << ") iterator " << q
+                       << " yields " << got[q].size() << " entries for row " << i << ", the row has " << exp.size());
+            for (size_t k = 0; k < exp.size(); ++k)
+                VF_REQUIRE(got[q][k].first == exp[k].first && bits_equal(got[q][k].second, exp[k].second), what << ": with 3 row iterators open (rows " << src.sched.rows[0] << "," << src.sched.rows[1] << ","
+                           << src.sched.rows[2] << ") iterator " << q << " on row " << i << " yields (" << got[q][k].first << "," << got[q][k].second << ") as entry " << k << ", the row has ("
+                           << exp[k].first << "," << exp[k].second << ")");
+        }
     }
 }
 
